@@ -50,41 +50,35 @@ type wjob struct {
 }
 
 type posIndex struct {
-	starts   map[[2]int][]doctree.Path // (line, col) of value or key starts -> node paths (byte and rune columns)
+	tree     *jsonv.Value
+	spans    map[*jsonv.Value]*doctree.Span
 	lines    int
 	lineLens []int
-	byLine   map[int][]doctree.Path
+	hasNodes bool
 }
 
 func buildIndex(tree *jsonv.Value, text []byte, spans map[*jsonv.Value]*doctree.Span) *posIndex {
-	ix := &posIndex{starts: map[[2]int][]doctree.Path{}, byLine: map[int][]doctree.Path{}}
+	ix := &posIndex{tree: tree, spans: spans, hasNodes: true}
 	for _, l := range strings.Split(string(text), "\n") {
 		ix.lineLens = append(ix.lineLens, len(l))
 	}
 	ix.lines = len(ix.lineLens)
-	doctree.WalkPaths(tree, func(p doctree.Path, v *jsonv.Value, parent *jsonv.Value) {
-		sp := spans[v]
+	return ix
+}
+
+// at returns the nodes whose value or member name starts at (line, col); columns are accepted in bytes or runes.
+func (ix *posIndex) at(line, col int) []doctree.Path {
+	var out []doctree.Path
+	doctree.WalkPaths(ix.tree, func(p doctree.Path, v *jsonv.Value, parent *jsonv.Value) {
+		sp := ix.spans[v]
 		if sp == nil {
 			return
 		}
-		pp := append(doctree.Path{}, p...)
-		add := func(l, c int) {
-			if l > 0 {
-				ix.starts[[2]int{l, c}] = append(ix.starts[[2]int{l, c}], pp)
-			}
-		}
-		add(sp.Line, sp.Col)
-		add(sp.Line, sp.ColRune)
-		add(sp.KeyLine, sp.KeyCol)
-		add(sp.KeyLine, sp.KeyColR)
-		for l := sp.Line; l <= sp.EndLine && l-sp.Line < 3; l++ {
-			ix.byLine[l] = append(ix.byLine[l], pp)
-		}
-		if sp.KeyLine > 0 {
-			ix.byLine[sp.KeyLine] = append(ix.byLine[sp.KeyLine], pp)
+		if (sp.Line == line && (sp.Col == col || sp.ColRune == col)) || (sp.KeyLine == line && sp.KeyLine > 0 && (sp.KeyCol == col || sp.KeyColR == col)) {
+			out = append(out, append(doctree.Path{}, p...))
 		}
 	})
-	return ix
+	return out
 }
 
 func isPrefix(a, b doctree.Path) bool {
@@ -260,7 +254,12 @@ func Main(args []string) int {
 		return si.Size() > sj.Size()
 	})
 	// processCases runs and decides the cases of ONE document (memory stays bounded by one document)
-	processCases := func(cases []*mcase) {
+	type docState struct {
+		cpuRef        int64
+		allocRef      uint64
+		baselineFails bool
+	}
+	processCases := func(cases []*mcase, ds *docState) {
 		sort.Slice(cases, func(i, j int) bool { return cases[i].id < cases[j].id })
 		if len(cases) == 0 {
 			return
@@ -362,32 +361,28 @@ func Main(args []string) int {
 		}
 		_ = runBatch
 		ev.Parallel(len(batches), inner, func(bi int) {
-			runB(fmt.Sprintf("%x-%04d", hash(cases[0].doc), bi), batches[bi], 0)
+			runB(fmt.Sprintf("%x-%04d", hash(cases[0].id), bi), batches[bi], 0)
 		})
 
 		// ---- decide
-		cpuRef := map[string]int64{}
-		allocRef := map[string]uint64{}
 		for _, c := range cases {
 			if c.class == "baseline" {
 				if l := results[c.id]; l != nil {
-					if l.CPUms > cpuRef[c.doc] {
-						cpuRef[c.doc] = l.CPUms
+					if l.CPUms > ds.cpuRef {
+						ds.cpuRef = l.CPUms
 					}
-					if l.AllocB > allocRef[c.doc] {
-						allocRef[c.doc] = l.AllocB
+					if l.AllocB > ds.allocRef {
+						ds.allocRef = l.AllocB
+					}
+					if l.Stage != "ok" {
+						ds.baselineFails = true
 					}
 				}
 			}
 		}
-		baselineFails := map[string]bool{}
-		for _, c := range cases {
-			if c.class == "baseline" {
-				if l := results[c.id]; l != nil && l.Stage != "ok" {
-					baselineFails[c.doc] = true
-				}
-			}
-		}
+		cpuRef := map[string]int64{cases[0].doc: ds.cpuRef}
+		allocRef := map[string]uint64{cases[0].doc: ds.allocRef}
+		baselineFails := map[string]bool{cases[0].doc: ds.baselineFails}
 		localRel := map[string]int{}
 		pairNodes := map[string]map[string][]string{} // doc|mut -> style -> reported node paths
 		for _, c := range cases {
@@ -489,7 +484,7 @@ func Main(args []string) int {
 					r.Violate("position-outside-document", fmt.Sprintf("%s: reported line %d but the document has %d lines", c.id, p.Line, c.ix.lines), w)
 					continue
 				}
-				if p.Kind == "line-only" || c.class == "bytes" || c.ix.starts == nil {
+				if p.Kind == "line-only" || c.class == "bytes" || !c.ix.hasNodes {
 					if p.Kind != "line-only" && p.Line <= len(c.ix.lineLens) && p.Col > c.ix.lineLens[p.Line-1]+2 {
 						w["position"] = p
 						save()
@@ -497,7 +492,7 @@ func Main(args []string) int {
 					}
 					continue
 				}
-				nodes := c.ix.starts[[2]int{p.Line, p.Col}]
+				nodes := c.ix.at(p.Line, p.Col)
 				if len(nodes) == 0 {
 					w["position"] = p
 					save()
@@ -613,20 +608,14 @@ func Main(args []string) int {
 			txt, spans := doctree.Emit(tree, doctree.StyleByName(sn))
 			local = append(local, &mcase{id: id + "|baseline|" + sn, doc: id, style: sn, text: txt, ix: buildIndex(tree, txt, spans), base: base, class: "baseline"})
 		}
-		muts := mutate.All(tree, maxNodes, lrng)
-		for k, m := range muts {
-			if replayAt != "" && (m.At != replayAt || m.Kind != replayKind) {
-				continue
+		ds := &docState{}
+		total := 0
+		flush := func() {
+			if len(local) > 0 {
+				processCases(local, ds)
+				total += len(local)
+				local = nil
 			}
-			styles := []string{"json-indent2"}
-			if k%4 == 0 || replayAt != "" {
-				styles = append(styles, "yaml-block2")
-			}
-			for _, sn := range styles {
-				txt, spans := doctree.Emit(m.Tree, doctree.StyleByName(sn))
-				local = append(local, &mcase{id: fmt.Sprintf("%s|%s@%s|%s", id, m.Kind, m.At, sn), doc: id, mut: m, style: sn, text: txt, ix: buildIndex(m.Tree, txt, spans), base: base, class: "structural"})
-			}
-			m.Tree = nil // keep memory bounded; the index holds what is needed
 		}
 		// byte-level mutants of the original text
 		if replayDoc == "" {
@@ -669,9 +658,37 @@ func Main(args []string) int {
 				local = append(local, &mcase{id: id + "|bytes|" + what, doc: id, style: "bytes", text: mb, ix: ix, base: base, class: "bytes"})
 			}
 		}
-		processCases(local)
+		flush() // baseline + byte-level cases first: they give the document's CPU/allocation reference
+		chunk := 120
+		if len(b) > 100000 {
+			chunk = 24
+		}
+		plan := mutate.Plan(tree, maxNodes, lrng)
+		k := 0
+		for _, sp := range plan {
+			if replayAt != "" && (sp.Path.String() != replayAt || sp.Kind != replayKind) {
+				continue
+			}
+			m := mutate.At(tree, sp.Path, sp.Kind)
+			if m == nil {
+				continue
+			}
+			styles := []string{"json-indent2"}
+			if k%4 == 0 || replayAt != "" {
+				styles = append(styles, "yaml-block2")
+			}
+			k++
+			for _, sn := range styles {
+				txt, spans := doctree.Emit(m.Tree, doctree.StyleByName(sn))
+				local = append(local, &mcase{id: fmt.Sprintf("%s|%s@%s|%s", id, m.Kind, m.At, sn), doc: id, mut: m, style: sn, text: txt, ix: buildIndex(m.Tree, txt, spans), base: base, class: "structural"})
+			}
+			if len(local) >= chunk {
+				flush()
+			}
+		}
+		flush()
 		cmu.Lock()
-		nCases += len(local)
+		nCases += total
 		cmu.Unlock()
 	})
 	_ = rng
@@ -692,15 +709,10 @@ func Main(args []string) int {
 }
 
 func treeOf(c *mcase) *jsonv.Value {
-	// rebuilt lazily from the emitted text (the mutant tree itself is released to bound memory)
-	if c.style == "bytes" {
+	if c.ix == nil {
 		return nil
 	}
-	t, err := doctree.Load(c.text)
-	if err != nil {
-		return nil
-	}
-	return t
+	return c.ix.tree
 }
 
 func hash(s string) uint64 {
